@@ -18,6 +18,11 @@ structure LawfulCmp (cmp : K → K → Int) : Prop where
   sign : ∀ a b, 0 ≤ cmp a b → cmp b a ≤ 0
   trans : ∀ a b c, cmp a b ≤ 0 → cmp b c ≤ 0 → cmp a c ≤ 0
 
+theorem LawfulCmp.refl {cmp : K → K → Int} (hc : LawfulCmp cmp) (a : K) : cmp a a ≤ 0 := by
+  by_cases h : 0 ≤ cmp a a
+  · exact hc.sign _ _ h
+  · omega
+
 /-- operations of `heap.Heap` -/
 inductive Op (K V : Type) where
   | insert (k : K) (v : V)
@@ -44,7 +49,7 @@ inductive Out (K V : Type) where
   | kv (o : Option (K × V))
   | bool (b : Bool)
   | int (n : Int)
-  deriving Repr
+  deriving Repr, DecidableEq
 
 abbrev Bag (K V : Type) := List (K × V)
 
